@@ -190,6 +190,12 @@ def gen(tier):
             for rr in rs:
                 items.append({'family': 'acme', 'action': 'acme_error', 'type': t, 'kind': kind, 'nth': nth, 'r': rr,
                               'label': 'acme:%s' % (t if t and not t.startswith('urn:') else ('unknownUrn' if t else 'noType'))})
+    # problem documents without a usable type: whatever their status member says, they are not recoverable
+    for (kind, nth) in (poss if tier == 'quick' else POST_POS):
+        for t in (None, 'about:blank'):
+            for st in (429, 503, 500, 409):
+                items.append({'family': 'acme', 'action': 'acme_error', 'type': t, 'status': st, 'kind': kind, 'nth': nth, 'r': r.choice([1, 2]),
+                              'label': 'acme:%s/%d' % ('noType' if t is None else 'aboutBlank', st)})
     # the remaining POST positions with a smaller product in the quick tier
     if tier == 'quick':
         for (kind, nth) in POST_POS:
